@@ -309,7 +309,7 @@ def fEpa2 : Epa2Result Float → String
   | .panic => "panic"
   | .fuel => "fuel"
   | .none => "none"
-  | .some p1 p2 n => s!"{fv2 p1} {fv2 p2} {fv2 n}"
+  | .some p1 p2 n _ => s!"{fv2 p1} {fv2 p2} {fv2 n}"
 
 
 def handlerCore (fn : String) : Option Handler :=
